@@ -25,11 +25,6 @@ func runC15(c *an.Ctx) {
 	fns := neovmFuncs(c)
 	n := orderRuleFuncs(c, cg, fns, map[string]string{}, "order", nil, func(fn *ssa.Function) string { return an.FuncName(fn) })
 	c.RequireMin("map-range loops in the NeoVM packages", n, 3)
-	// getMapSortedKey is the single source of map order for KEYS/VALUES/serialize/stringify
-	if f := mustFunc(c, "vm/neovm/types.(*MapValue).getMapSortedKey"); f != nil {
-		loops := an.MapLoops(f)
-		c.Check(len(loops) == 1, "order|getMapSortedKey|shape", "getMapSortedKey ranges over the map once and sorts", c.P.Rel(f.Pos()), "loop count changed")
-	}
 	// every other function that ranges over MapValue.Data is listed above; functions that need an order take it from getMapSortedKey
 	dataField := c.P.Field("vm/neovm/types.MapValue.Data")
 	if dataField == nil {
